@@ -225,4 +225,34 @@ theorem getitem_append (a b : List Dict) (k : Nat) :
     · simpa using ih
     · simp
 
+theorem filterMap_congr' {f g : Nat → Option Nat} (l : List Nat) (h : ∀ k ∈ l, f k = g k) :
+    l.filterMap f = l.filterMap g := by
+  induction l with
+  | nil => rfl
+  | cons a r ih =>
+    have h1 := h a (by simp)
+    have h2 := ih (fun k hk => h k (by simp [hk]))
+    simp only [List.filterMap_cons, h1, h2]
+
+/-- in a dict (distinct keys) the values are the lookups of the keys, in order -/
+theorem values_eq_lookups (d : Dict) (h : d.wf) : d.map (·.2) = d.keys.filterMap d.get? := by
+  induction d with
+  | nil => simp [Dict.keys]
+  | cons ab r ih =>
+    obtain ⟨a, b⟩ := ab
+    have hr : Dict.wf r := by
+      simp only [Dict.wf, Dict.keys, List.map_cons, List.nodup_cons] at h ⊢; exact h.2
+    have ha : a ∉ Dict.keys r := by
+      simp only [Dict.wf, Dict.keys, List.map_cons, List.nodup_cons] at h ⊢; exact h.1
+    have hcongr : (Dict.keys r).filterMap (Dict.get? ((a, b) :: r)) = (Dict.keys r).filterMap (Dict.get? r) := by
+      apply filterMap_congr'
+      intro k hk
+      have : ¬ a = k := fun e => ha (e ▸ hk)
+      simp [Dict.get?, this]
+    have hhead : Dict.get? ((a, b) :: r) a = some b := by simp [Dict.get?]
+    show b :: r.map (·.2) = (a :: Dict.keys r).filterMap (Dict.get? ((a, b) :: r))
+    rw [List.filterMap_cons, hhead, hcongr, ← ih hr]
+
+theorem iteritems_wf (ds : List Dict) : (iteritems ds).wf := iter_nodup ds
+
 end SuppModel.MDict
